@@ -180,6 +180,7 @@ func (c *Chain) CheckTx(tx []byte) abcitypes.ResponseCheckTx {
 			first = resp
 		}
 		rc := resp
+		rc.Log, rc.Info = "", ""
 		out = append(out, &rc)
 	}
 	c.compare("CheckTx", out)
@@ -214,6 +215,7 @@ func (c *Chain) ExecBlock(txs [][]byte, now time.Time) *Block {
 				b.Deliver = append(b.Deliver, resp)
 			}
 			rc := resp
+			rc.Log, rc.Info = "", "" // free-text diagnostics (stack traces), not part of the result
 			out = append(out, &rc)
 		}
 		c.compare(fmt.Sprintf("DeliverTx h=%d i=%d", c.Height, ti), out)
